@@ -99,6 +99,7 @@ func main() {
 	}
 	defer drv.Close()
 	mons := newMonitors(res)
+	runDirected(f, res, drv, mons)
 	runEquator(f, res, drv, mons)
 	runValues(f, res, drv, mons)
 	runPull(f, res, drv, mons)
